@@ -115,6 +115,72 @@ def rhs(items):
     return common, group, empty_effect
 
 
+
+def ev_ordered(t):
+    """Second admissible reading: term identity by ordered factor list (a:b and b:a are two terms)."""
+    k = t[0]
+    if k == "var":
+        return [(t[1],)]
+    u = uniq
+    if k == "+":
+        return u(ev_ordered(t[1]) + ev_ordered(t[2]))
+    if k == "-":
+        b = ev_ordered(t[2])
+        return [x for x in ev_ordered(t[1]) if x not in b]
+    a = ev_ordered(t[1])
+    if k == "**":
+        out = list(a)
+        for i in range(2, t[2] + 1):
+            for c in itertools.combinations(a, i):
+                tt = ()
+                for x in c:
+                    tt = tjoin(tt, x)
+                out.append(tt)
+        return u(out)
+    b = ev_ordered(t[2])
+    if k == ":":
+        return u([tjoin(x, y) for x in a for y in b])
+    if k == "*":
+        return u(a + b + [tjoin(x, y) for x in a for y in b])
+    if k == "/":
+        allf = tuple(u([f for x in a for f in x]))
+        return u(a + [tjoin(allf, y) for y in b])
+    raise ValueError(k)
+
+
+
+def rhs_ordered(items):
+    common = [()]
+    group = []
+    for sign, it in items:
+        if it[0] == "lit":
+            v = it[1]
+            if sign == "+" and v == "1":
+                if () not in common:
+                    common.append(())
+            else:
+                common = [t for t in common if t != ()]
+        elif it[0] == "grp":
+            lead, e, g = it[1], it[2], it[3]
+            eff = ev_ordered(e) if e is not None else []
+            if lead in (None, "1"):
+                eff = [()] + eff
+            for p in [(x, y) for x in eff for y in ev_ordered(g)]:
+                if sign == "+":
+                    if p not in group:
+                        group.append(p)
+                else:
+                    group = [q for q in group if q != p]
+        else:
+            terms = ev_ordered(it)
+            if sign == "+":
+                common = uniq(common + terms)
+            else:
+                common = [t for t in common if t not in terms]
+    return common, group
+
+
+
 PREC = {"+": 4, "-": 4, "*": 5, "/": 5, ":": 6, "**": 7}
 
 
